@@ -966,6 +966,9 @@ func (e *Engine) deliver(conn *simconn.Conn, lose bool) {
 	if d == nil {
 		return
 	}
+	if strings.HasPrefix(d.Dropped, "panic: ") {
+		e.H.Violate("C03", "panic", "delivery: "+strings.TrimPrefix(d.Dropped, "panic: "), "delivering a message to the service's subscription channel panicked ("+d.Dropped+"): the channel was closed while the connection was still open and delivering; with nats.go this panic is raised on the connection's goroutine and kills the process")
+	}
 	if d.ID > 0 && d.ID < len(e.Subs) && e.Subs[d.ID] != nil && d.Sub != nil {
 		s := e.Subs[d.ID]
 		if e.isQuerySub(d.Sub.Subject) {
